@@ -95,6 +95,19 @@ Definition cse_members (h w : Z) (result : pyval) : res pyval :=
           (seq 1 (Z.to_nat h)) ;;
   Ok (VTuple rows).
 
+(* a reference range of ONE cell is no CSE range: load_array_formulas (the else
+   branch, AddressRange('A1:A1') is an AddressCell) leaves the plain formula
+   text, and the cell is an ordinary formula cell *)
+Definition formula_cell (result : pyval) : res pyval :=
+  v <- eval_formula VNone result ;; cell_value v.
+
+(* the cells of the target as rows: what every cell of an array formula's
+   reference range evaluates to *)
+Definition target_cells (h w : Z) (result : pyval) : res pyval :=
+  if (h =? 1) && (w =? 1)
+  then (v <- formula_cell result ;; Ok (VTuple [VTuple [v]]))
+  else cse_members h w result.
+
 (* what a cell shows of an element: a blank is 0 (eval_func), then cell_value *)
 Definition shown (e : pyval) : res pyval :=
   cell_value (if is_blank e then VInt 0 else e).
